@@ -280,7 +280,7 @@ func calleeSummary(g *ssa.Function, q PathQuery, onStack map[*ssa.Function]bool)
 	}
 	onStack[g] = true
 	defer delete(onStack, g)
-	inner := PathQuery{Stop: q.Stop, DeferStop: q.DeferStop, Descend: nil,
+	inner := PathQuery{Stop: q.Stop, DeferStop: q.DeferStop, Descend: nil, SkipEdge: q.SkipEdge,
 		Bad: func(in ssa.Instruction) bool {
 			if _, isRet := in.(*ssa.Return); isRet {
 				return false
@@ -317,7 +317,7 @@ func calleeSummary(g *ssa.Function, q PathQuery, onStack map[*ssa.Function]bool)
 	}
 	bad, _ := Bypass(nil, g.Blocks[0], inner)
 	mayBad = bad != nil
-	toRet := PathQuery{Stop: inner.Stop, DeferStop: q.DeferStop, Bad: func(in ssa.Instruction) bool { _, ok := in.(*ssa.Return); return ok }}
+	toRet := PathQuery{Stop: inner.Stop, DeferStop: q.DeferStop, SkipEdge: q.SkipEdge, Bad: func(in ssa.Instruction) bool { _, ok := in.(*ssa.Return); return ok }}
 	r, _ := Bypass(nil, g.Blocks[0], toRet)
 	mustStop = r == nil
 	return
